@@ -128,18 +128,22 @@ partial def evLoop (h : IO.FS.Stream) (d : DS) (bits : String) (more : List Stri
                     ((observe d1 s2).1, showRet r)
                   else (d1, "-")
       | none => (d1, "-")
-    let (d3, str) := observe { d2 with nctl := d.nctl } (teardown (evEnd d.g d2.s))
-    if d3.s.hung then IO.println hungLine; loop h { d3 with dead := true }
-    else
-      -- a racing call of another goroutine waits for the conn mutex: it runs after the poller's tail
-      let (d4, rcs, str) := match race with
-        | some c =>
-          let (s4, r) := doCall d.g d3.s c
-          let (d4, str4) := observe { d3 with nctl := d.nctl } { s4 with ctl := s4.ctl }
-          (d4, showRet r, str4)
-        | none => (d3, "-", str)
-      let dstr := (if dl.1 then "o" else "") ++ (if dl.2.1 then "i" else "") ++ (if dl.2.2 then "e" else "")
-      IO.println s!"R deliv={if dstr == "" then "-" else dstr} cb={cbs} rc={rcs} {str}"; loop h d4
+    let dstr := (if dl.1 then "o" else "") ++ (if dl.2.1 then "i" else "") ++ (if dl.2.2 then "e" else "")
+    match race with
+    | none =>
+      let (d3, str) := observe { d2 with nctl := d.nctl } (teardown (evEnd d.g d2.s))
+      if d3.s.hung then IO.println hungLine; loop h { d3 with dead := true }
+      else IO.println s!"R deliv={if dstr == "" then "-" else dstr} cb={cbs} rc=- {str}"; loop h d3
+    | some c =>
+      -- a racing call of another goroutine is started inside ResetPollerEvent and waits for the conn mutex: it
+      -- runs between the poller's tail actions `evRearm` and `evErrClose` (the split ops of `evEnd`)
+      let sA := evRearm d.g (evConnEnd d.g d2.s)
+      if sA.hung then IO.println hungLine; loop h { d2 with s := sA, dead := true }
+      else
+        let (sB, r) := doCall d.g sA c
+        let (d4, str4) := observe { d2 with nctl := d.nctl } (teardown (evErrClose sB))
+        if d4.s.hung then IO.println hungLine; loop h { d4 with dead := true }
+        else IO.println s!"R deliv={if dstr == "" then "-" else dstr} cb={cbs} rc={showRet r} {str4}"; loop h d4
   | _, _, _ => IO.println "bad-op"; loop h { d with dead := true }
 
 partial def loop (h : IO.FS.Stream) (d : DS) : IO Unit := do
